@@ -102,6 +102,7 @@ class _Run:
         self.errors = 0
         self.handed_out = set()
         self.excluded = []
+        self.generation_banned = set()
 
     # ---- bookkeeping around one op
     def begin_op(self):
@@ -124,18 +125,27 @@ class _Run:
             self.fired_sites.add(site)
             self.cls.add(f"fired:{site}:{kind}")
             if site == "ping" and kind == "disconnect":
-                for i in self.existing:
-                    self.bans.ban(i, "it is older than a failed pre-ping (pool-wide invalidation)")
+                self.pool_wide(cid, "it is older than a failed pre-ping (pool-wide invalidation)")
             elif site == "ev_checkout" and kind == "disconnect_pool":
-                for i in self.existing:
-                    self.bans.ban(i, "it is older than an InvalidatePoolError raised on checkout")
+                self.pool_wide(cid, "it is older than an InvalidatePoolError raised on checkout")
             elif site == "ev_checkout" and kind == "disconnect":
                 self.bans.ban(cid, "a checkout listener raised DisconnectionError for it")
-            elif ctxkind == "conn-op" and kind == "disconnect":
-                for i in self.existing:
-                    self.bans.ban(i, "it is older than a disconnect detected by a Connection (pool-wide invalidation)")
+            elif ctxkind == "conn-op" and kind == "disconnect" and site != "connect":
+                self.pool_wide(cid, "it is older than a disconnect detected by a Connection (pool-wide invalidation)")
             elif ctxkind == "raw-release" and site in ("rollback", "commit", "ev_reset"):
                 self.bans.ban(cid, "its reset-on-return failed")
+
+    def pool_wide(self, cid, reason):
+        """Pool._invalidate is generational (its docstring): a failure on a connection that already belongs to an
+        invalidated generation says nothing new; a failure on a connection newer than the last pool-wide
+        invalidation invalidates everything that exists at that moment"""
+        if cid in self.generation_banned:
+            self.cls.add("pool-wide-invalidation:stale-generation")
+            return
+        self.cls.add("pool-wide-invalidation")
+        for i in self.existing:
+            self.bans.ban(i, reason)
+            self.generation_banned.add(i)
 
     def allowed(self):
         exc = self.sa.exc
@@ -151,6 +161,14 @@ class _Run:
                 raise Violation("C26/capacity/spurious-timeout", f"{where}: reconnect timed out with {len(self.slot_holders(self.eng.pool))} slot holders; trace={self.trace}")
             self.cls.add("err:TimeoutError-on-reconnect")
             return "TimeoutError"
+        orig = e.orig if isinstance(e, exc.StatementError) and not isinstance(e, exc.DBAPIError) else e
+        if type(orig) is exc.InvalidRequestError and "This connection is closed" in str(orig):
+            # documented outcome of _checkout when both reconnect attempts were refused by checkout listeners
+            n = sum(1 for _, site, _, kind in self.new_faults() if site == "ev_checkout" and kind.startswith("disconnect"))
+            if n < 2:
+                raise Violation("C26/recovery/gave-up-without-two-refusals", f"{where}: 'This connection is closed' after only {n} checkout-listener disconnects; trace={self.trace}")
+            self.cls.add("err:reconnect-attempts-exhausted")
+            return "InvalidRequestError"
         label = F.classify_error("C26", e, f"{where}; trace={self.trace}", allow=self.allowed())
         self.cls.add("err:" + label)
         return label
@@ -194,7 +212,7 @@ class _Run:
             return
         c = next(x for x in self.db.conns if x.id == cid)
         if not c.close_attempted:
-            raise Violation(f"C26/leak/detached-connection-not-closed-{what}", f"detached connection {cid} was {what.replace('-', ' ')} but close() was never attempted on it; "
+            raise Violation(f"C26/leak/detached-connection-not-closed-{what}", f"detached connection {cid} ({what}): close() was never attempted on it; "
                             f"trace={self.trace}", observed=cid)
 
     # ---- checks on a connection that was just handed out
@@ -450,8 +468,13 @@ class _Run:
             if not c.close_attempted and c.id not in self.handed_out:
                 hit = [f for f in self.db.injected if f[0] == c.id]
                 if hit:
-                    raise Violation("C26/leak/dropped-after-failed-connect-listener", f"connection {c.id} was opened, {hit[0][1]}#{hit[0][2]} failed inside the connect-time "
-                                    f"initialisation, and close() was never called on it; trace={self.trace}", observed=c.id)
+                    calls = [s_ for i_, s_, _ in self.db.log if i_ == c.id]
+                    first = calls.index(hit[0][1]) if hit[0][1] in calls else 0
+                    if hit[0][1] in ("rollback", "commit", "cursor", "execute") and not any(x in ("ev_checkout", "ping") for x in calls[:first]):
+                        raise Violation("C26/leak/dropped-after-failed-connect-listener", f"connection {c.id} was opened, {hit[0][1]}#{hit[0][2]} failed inside the connect-time "
+                                        f"initialisation, and close() was never called on it; trace={self.trace}", observed=c.id)
+                    raise Violation("C26/leak/failed-checkout-leaves-connection-open", f"connection {c.id}: {hit[0][1]}#{hit[0][2]} failed during checkout, it was never handed "
+                                    f"out, and close() was never attempted on it; trace={self.trace}", observed=c.id)
 
     def quiescent_check_if_idle(self):
         if [h for h in self.holders if h.state != "gone"]:
@@ -684,8 +707,11 @@ def _cases(draw):
         ops.append(draw(st.sampled_from([["use", 0], ["write", 0], ["write", 1], ["use", 1]])))
         for _ in range(draw(st.integers(0, 2))):
             ops.append(draw(_opst))
-        if draw(st.integers(0, 5)) == 0:
+        r = draw(st.integers(0, 7))
+        if r == 0:
             ops += [["inv", 0, 0], ["use", 0]]
+        elif r == 1:
+            ops += [["inv", 0, 1]]
         ops.append(draw(st.sampled_from([["ci", 0], ["ci", 1], ["gc", 0], ["ci", 0]])))
     extra = draw(st.lists(_opst, max_size=6))
     for op in extra:
@@ -717,23 +743,28 @@ def _fault_free_counts(cfg):
         base = dict(run.db.counts)
         ebase = dict(run.events.counts) if run.events else {}
         F.arm(run.db, [], run.events)
-        for op in ENUM_OPS:
-            k = op[0]
-            if k == "co":
-                run.op_checkout(op[1])
-            elif k in ("use", "write"):
-                run.op_use(op[1], "select 1")
-            elif k == "ci":
-                h = run.pick(op[1])
-                if h is not None:
-                    run.op_release(h, False)
-            elif k == "tick":
-                run.clock.advance(op[1])
+        try:
+            for op in ENUM_OPS:
+                k = op[0]
+                if k == "co":
+                    run.op_checkout(op[1])
+                elif k in ("use", "write"):
+                    run.op_use(op[1], "select 1")
+                elif k == "ci":
+                    h = run.pick(op[1])
+                    if h is not None:
+                        run.op_release(h, False)
+                elif k == "tick":
+                    run.clock.advance(op[1])
+        except Violation:
+            pass  # only call counts are wanted here; the enumerated cases themselves report violations
         for s in F.DBAPI_SITES:
-            counts[s] = run.db.counts[s] - base.get(s, 0)
+            counts[s] = max(run.db.counts[s] - base.get(s, 0), 2)
         for s in F.EVENT_SITES:
-            counts[s] = (run.events.counts[s] - ebase.get(s, 0)) if run.events else 0
-        run.finish()
+            counts[s] = max(run.events.counts[s] - ebase.get(s, 0), 2) if run.events else 0
+        run.holders = []
+        for p in run.pools:
+            p.dispose()
     return counts
 
 
@@ -758,5 +789,5 @@ def _enum_cases(tier):
 def subs(tier):
     return [
         Enumerated("enum", check_enum, cases=_enum_cases),
-        Generated("random", check_random, strategy=_cases(), quick=1000, thorough=100000),
+        Generated("random", check_random, strategy=_cases(), quick=4000, thorough=100000),
     ]
